@@ -49,7 +49,18 @@ def payoff_source(ctx, pid):
             n += 1
             ctx.touch(f)
             site = (f.name, bi)
-            feeds = any(g is f and q.find_sub(e, lambda x: x[0] == 'call' and x[3] == site) is not None for g, e in inserts)
+            def mentions(e, depth=0, seen=None):
+                # the call's value directly, or through a local that several match arms assign (`let (id, pays) = match node {..}`)
+                seen = seen if seen is not None else set()
+                for x in facts.walk(e):
+                    if x[0] == 'call' and x[3] == site:
+                        return True
+                    if x[0] == 'var' and depth < 4 and x[1] not in seen:
+                        seen.add(x[1])
+                        if any(mentions(v, depth + 1, seen) for _, _, v in q.multi_def_values(f, x[1])):
+                            return True
+                return False
+            feeds = any(g is f and mentions(e) for g, e in inserts)
             if not feeds:
                 bad.append(f.where(bi))
     if n == 0:
@@ -211,7 +222,26 @@ def run(ctx):
             if s is not None:
                 i = strip_refs(s[2])
                 idx = i[0] == 'bin' and i[1] == 'Sub' and q.is_call(strip_refs(i[2]), 'player_num') and is_const(i[3], 1)
-        ctx.verdict(bool(idx), rule, rule + ':name-table-index', 'infoset names are looked up in table player_num - 1', g.where(0), 'found: %s' % idx)
+        if idx is None:
+            # the table chosen by the same match that maps the player number: `(1, [names, _]) => .., (2, [_, names]) => ..`
+            for bi, t, e in q.calls_named(g, 'get'):
+                recv = strip_refs(e[2][0])
+                if recv[0] != 'var':
+                    continue
+                sel = {}
+                for bj, cs, v in q.multi_def_values(g, recv[1]):
+                    if 'infoset_names' not in facts.show(v):
+                        continue
+                    pn = [c for c in cs if c['kind'] == 'value' and len(c['values']) == 1 and c['values'][0].isdigit() and q.is_call(strip_refs(c['a']), 'player_num')]
+                    tg = q.tags(v)
+                    if pn and len(tg) == 1:
+                        sel[int(pn[-1]['values'][0])] = next(iter(tg))
+                if sel:
+                    idx = sel == {1: 0, 2: 1}
+        if idx is None:
+            ctx.anchor_lost(rule, 'gambit conversion: choice of the per-player infoset name table')
+        else:
+            ctx.verdict(bool(idx), rule, rule + ':name-table-index', 'infoset names are looked up in table player_num - 1', g.where(0), 'found: %s' % idx)
 
     payoff_source(ctx, 'C15')
     # ---------------- (3) ordering
